@@ -272,3 +272,63 @@ Proof.
   { intros k Hk. destruct (rs_has _ _) eqn:E; [|reflexivity]. apply H in E. lia. }
   cbn [fold_left]. rewrite !Hk by lia. reflexivity.
 Qed.
+
+(** * Oracle-only leg "headsoft" (harness/c03/c03_headsoft_test.go, TestC03HeadSoft)
+
+    The soft-answer branch of [Syncer.networkHead]: the network head request made with
+    [WithTrustedHead] is answered with a header TOGETHER WITH a soft [*VerifyError], and the
+    Syncer hands that header to [incomingNetworkHead] for bifurcation.  Model/Syncer.v has no
+    event for this branch ([THd1] is a plain answer), so there is NO MODEL SIDE here: [chk03h]
+    answers [agree = true] for every case and only the oracle speaks.  The oracle re-states the
+    property on the observation, independently of the model:
+      - every header the Store serves is a header of the TRUE chain at its height (the driver's
+        registry numbers the true chain 1.. in height order, so the true id of height n is
+        n + 1 - tail; forged headers are numbered after them);
+      - the Store is one gap-free run tail..head, and its head is a true header;
+      - the subjective head ([Syncer.Head()] at every quiescence and the header the gated
+        [Head()] call returned) is a true header, in particular not one of the forged ones.
+    In these scenarios forged headers fail every verification (bad link when adjacent, bad
+    "signature" = non-zero nonce otherwise), so "true chain only" is what the property demands. *)
+Record obs03h := Obs03h {
+  oh_sync : N * N;                 (* Syncer.Head() at this quiescence: (height, id); (0, 0) = it returned an error *)
+  oh_state : N;                    (* State().Height *)
+  oh_shead : N * N;                (* the Store's head: (height, id) *)
+  oh_probe : list (N * N)          (* (height, id) at every height tail .. max(universe top, store head) + 2 the Store serves *)
+}.
+
+Record case03h := Case03h {
+  qh_tail : N;
+  qh_total : N;                    (* the true chain: heights tail .. tail+total-1, ids 1 .. total in height order *)
+  qh_forged : list N;              (* ids of the forged headers of the case *)
+  qh_ret : N;                      (* the gated Head() call: 1 = returned nil error, 2 = returned an error, 3 = never returned *)
+  qh_rhdr : N * N;                 (* the header it returned: (height, id); (0, 0) = none *)
+  qh_obs : list obs03h             (* observations at the quiescences after the answer was released, in order *)
+}.
+
+Definition true_at (k : case03h) (p : N * N) : bool :=
+  (qh_tail k <=? fst p) && (fst p <? qh_tail k + qh_total k) && (snd p =? fst p + 1 - qh_tail k).
+
+Definition ok_obs03h (k : case03h) (o : obs03h) : bool :=
+  (* only true headers in the Store, each at its own height *)
+  forallb (true_at k) (oh_probe o)
+  && negb (existsb (fun p => existsb (N.eqb (snd p)) (qh_forged k)) (oh_probe o))
+  (* one gap-free run tail..head *)
+  && consecutive_probe (qh_tail k) (fst (oh_shead o)) (oh_probe o)
+  && true_at k (oh_shead o)
+  (* the subjective head is a true header, never a forged one, and not below what was synced *)
+  && true_at k (oh_sync o)
+  && negb (existsb (N.eqb (snd (oh_sync o))) (qh_forged k))
+  && (oh_state o <=? fst (oh_sync o)).
+
+Definition ok03h (k : case03h) : bool :=
+  (* the case is well-formed: forged headers are numbered apart from the true chain *)
+  forallb (fun i => qh_total k <? i) (qh_forged k)
+  && negb (qh_ret k =? 3)
+  && (if qh_ret k =? 1
+      then true_at k (qh_rhdr k) && negb (existsb (N.eqb (snd (qh_rhdr k))) (qh_forged k))
+      else true)
+  && negb (match qh_obs k with [] => true | _ => false end)
+  && forallb (ok_obs03h k) (qh_obs k).
+
+(** oracle only: no model agreement is claimed for these cases *)
+Definition chk03h (k : case03h) : bool * bool * N := (true, ok03h k, 0).
